@@ -141,8 +141,11 @@ pub fn gen_case(rng: &mut Rng, _thorough: bool, case: u64) -> J {
         let mut b = AlgoConfigBuilder::new();
         if let Some(x) = ssz { b.individual_sample_size(x); }
         if let Some(x) = ncc { b.num_concurrent(x); }
-        let r = match b.build() { Ok(c) => json!({"ok": [c.individual_sample_size, c.num_concurrent]}), Err(Error::ZeroSampleSize) => json!("zeroSampleSize"), Err(Error::ZeroNumConcurrent) => json!("zeroNumConcurrent"), Err(e) => json!({"other": e.to_string()}) };
-        cfgs.push(json!({"ss": ssz, "nc": ncc, "res": r}));
+        let enc = |r: Result<cambrian::meta::AlgoConfig, Error>| match r { Ok(c) => json!({"ok": [c.individual_sample_size, c.num_concurrent]}), Err(Error::ZeroSampleSize) => json!("zeroSampleSize"), Err(Error::ZeroNumConcurrent) => json!("zeroNumConcurrent"), Err(e) => json!({"other": e.to_string()}) };
+        let r = enc(b.build());
+        // the same builder asked again (a second run set up the same way): the same configuration
+        let r2 = enc(b.build());
+        cfgs.push(json!({"ss": ssz, "nc": ncc, "res": r, "again": r2}));
     }
     json!({"mode": "run", "configs": cfgs, "criteria": crits.iter().map(|c| c.0.clone()).collect::<Vec<_>>(), "nc": nc, "threaded": threaded, "barrier": barrier, "immediate": immediate, "tiny": scale != 1.0, "failAt": fail_at,
            "calls": calls.load(Ordering::SeqCst), "maxLive": max_live.load(Ordering::SeqCst), "ret": ret,
